@@ -1,4 +1,4 @@
-package zzselftest
+package types
 
 //zz:rt
 
